@@ -47,6 +47,11 @@ static std::string handle(const Sx& cs) {
     for (auto& k : cs[2].l) ks.push_back(k.a);
     return dump(L(3)->getitem_fields(ks));
   }
+  if (op == "setfield") {  // (id setfield KEY recordlayout what)
+    ContentPtr c = L(3);
+    if (const RecordArray* r = dynamic_cast<const RecordArray*>(c.get())) return dump(r->setitem_field(cs[2].a, L(4)));
+    throw std::invalid_argument("setfield: not a RecordArray");
+  }
   if (op == "reduce") {  // (id reduce NAME AXIS MASK KEEPDIMS layout)
     return dump(L(6)->reduce(*reducer_of(cs[2].a), to_i64(cs[3]), to_i64(cs[4]) != 0, to_i64(cs[5]) != 0));
   }
